@@ -233,6 +233,10 @@ class PathCtx(object):
                 elif st == 'failed?':
                     st = 'failed'
                     solver += '(candidate-model)'
+        if st == 'failed?':
+            # sat answer in a context with quantified hypotheses and no second opinion: the model is a candidate (replay decides)
+            st = 'failed'
+            solver += '(candidate-model)'
         ob = Obligation(oid, self.path_label(), st, solver, time.time() - t0, model=model, info=info, line=line,
                         smt2=(smt2 if st != 'discharged' else None))
         self.oblig.append(ob)
